@@ -21,6 +21,8 @@ SCHEDULE_KEYS = ("start_step", "start_variance", "frequency", "variance", "max_e
 
 
 _HOSTS: Dict[str, List[Tuple[str, Dict]]] = {}
+# shipped files that are malformed on purpose or need a plug-in (the same list as harness/props/c01.py SKIP): never hosts
+NOT_HOSTS = {"bad_primaite_session", "no_nodes_links_agents_network", "eval_only_primaite_session", "extended_config"}
 
 
 def hosts(agent_type: str) -> List[Tuple[str, Dict]]:
@@ -29,6 +31,8 @@ def hosts(agent_type: str) -> List[Tuple[str, Dict]]:
         return _HOSTS[agent_type]
     out = []
     for name, path in scen.shipped().items():
+        if name in NOT_HOSTS:
+            continue
         try:
             cfg = scen.load_cfg(path)
         except Exception:
